@@ -90,6 +90,7 @@ type TableSpec struct {
 	Pkg  string
 	Src  string
 	Tags []string
+	diag []string
 }
 
 type SpecDB struct {
@@ -278,8 +279,7 @@ func (db *SpecDB) readFile(path, repo string) {
 			db.Guards = append(db.Guards, g)
 		case "table", "layout", "consts":
 			tags, head := splitTags(rest)
-			curTable = &TableSpec{Kind: kw, Head: strings.TrimSpace(head), Pkg: pkg, Src: src, Tags: tags}
-			db.Tables = append(db.Tables, curTable)
+			db.Tables = append(db.Tables, &TableSpec{Kind: kw, Head: strings.TrimSpace(head), Pkg: pkg, Src: src, Tags: tags})
 		case "requires", "ensures":
 			tags, body := splitTags(rest)
 			n, err := parseExpr(body)
